@@ -471,6 +471,36 @@ pub fn arb_ty(depth: u32) -> impl Strategy<Value = Ty> + Clone + use<> {
 
 pub const STR_POOL: [&str; 12] = ["ab", "", "x y", "1", "true", "a\nb", "- k", "k: v", "null", "line\n", "q", "two\nlines\n"];
 
+/// Key nodes are compared by structure, scalar text and tag - not by style: `null`, `~`, an
+/// empty scalar and the strings "null" / "~" / "" are one key, at any depth of a composite key.
+/// Two keys with the same normal form must not be generated into one mapping.
+pub fn norm_key(k: &DV) -> DV {
+    let n = norm_key;
+    match k {
+        DV::None | DV::Unit => DV::Str("null".into()),
+        DV::Str(s) if s.is_empty() || s == "~" || s.eq_ignore_ascii_case("null") => DV::Str("null".into()),
+        DV::Some(x) | DV::NT(x) => n(x),
+        DV::Seq(x) => DV::Seq(x.iter().map(n).collect()),
+        DV::Struct(x) => DV::Struct(x.iter().map(n).collect()),
+        DV::Map(es) => DV::Map(es.iter().map(|(a, b)| (n(a), n(b))).collect()),
+        DV::Var(i, x) => DV::Var(*i, x.iter().map(n).collect()),
+        other => other.clone(),
+    }
+}
+
+/// does some mapping of the value hold two keys that are one key node for the reader?
+pub fn has_colliding_keys(v: &DV) -> bool {
+    match v {
+        DV::Map(es) => {
+            let ks: Vec<DV> = es.iter().map(|(k, _)| norm_key(k)).collect();
+            ks.iter().enumerate().any(|(i, k)| ks[..i].contains(k)) || es.iter().any(|(k, x)| has_colliding_keys(k) || has_colliding_keys(x))
+        }
+        DV::Some(x) | DV::NT(x) => has_colliding_keys(x),
+        DV::Seq(x) | DV::Struct(x) | DV::Var(_, x) => x.iter().any(has_colliding_keys),
+        _ => false,
+    }
+}
+
 pub fn arb_val(t: &Ty) -> BoxedStrategy<DV> {
     match t {
         Ty::Unit => Just(DV::Unit).boxed(),
@@ -485,15 +515,7 @@ pub fn arb_val(t: &Ty) -> BoxedStrategy<DV> {
             .prop_map(|es| {
                 // keys must be distinct as YAML key nodes: the reader compares scalar keys by text
                 // (style ignored), so None / () and the strings "null", "~", "" collide
-                fn norm(k: &DV) -> DV {
-                    match k {
-                        DV::None | DV::Unit => DV::Str("null".into()),
-                        DV::Str(s) if s.is_empty() || s == "~" || s.eq_ignore_ascii_case("null") => DV::Str("null".into()),
-                        DV::Some(x) | DV::NT(x) => norm(x),
-                        DV::Seq(x) => DV::Seq(x.iter().map(norm).collect()),
-                        other => other.clone(),
-                    }
-                }
+                use norm_key as norm;
                 let mut out: Vec<(DV, DV)> = vec![];
                 for (k, v) in es {
                     if !out.iter().any(|(k2, _)| norm(k2) == norm(&k)) {
@@ -840,15 +862,7 @@ pub fn val_from_bytes_with(b: &mut Bytes, t: &Ty, pool: &[&str], lo: i64, hi: i6
         Ty::Tuple(ts) | Ty::TS(ts) => DV::Seq(ts.iter().map(|t| go(b, t)).collect()),
         Ty::NT(t) => DV::NT(Box::new(go(b, t))),
         Ty::Map(k, v) => {
-            fn norm(k: &DV) -> DV {
-                match k {
-                    DV::None | DV::Unit => DV::Str("null".into()),
-                    DV::Str(s) if s.is_empty() || s == "~" || s.eq_ignore_ascii_case("null") => DV::Str("null".into()),
-                    DV::Some(x) | DV::NT(x) => norm(x),
-                    DV::Seq(x) => DV::Seq(x.iter().map(norm).collect()),
-                    other => other.clone(),
-                }
-            }
+            use norm_key as norm;
             let n = b.below(3);
             let mut out: Vec<(DV, DV)> = vec![];
             for _ in 0..n {
